@@ -47,6 +47,79 @@ static inline uint64_t rdtsc(void) { unsigned lo, hi; __asm__ volatile("rdtsc" :
 
 static uint64_t nsys_cached;
 
+/* Cold start: the first thing every thread does is to call every entry point once, in the same order, right after the
+ * barrier — so that anything the library sets up lazily on first use (a lookup table, a cached pointer, a flag) is set up
+ * by several threads at the same moment in the first run of a fresh process. */
+static uint64_t cold_touch(struct tctx* c, FILE* df, char** dtext, size_t* dlen) {
+  static const uint8_t all[] = {0x9f, 0x01, 0x20, 0x18, 0x64, 0x39, 0x01, 0x00, 0x1a, 0x00, 0x01, 0x00, 0x00, 0x3b, 0, 0, 0, 1, 0, 0, 0, 0, 0x42, 1, 2, 0x64, 'a', 0xc3, 0xa9, 'z', 0x5f, 0x41, 0, 0x40, 0xff,
+                                0x7f, 0x61, 'x', 0xff, 0x82, 1, 2, 0xa1, 1, 2, 0xbf, 1, 2, 0xff, 0xc1, 0x00, 0xd8, 0x18, 0x40, 0xf9, 0x3c, 0x00, 0xf9, 0x7e, 0x00, 0xf9, 0x00, 0x01, 0xfa, 0x3f, 0x80, 0, 0,
+                                0xfb, 0x3f, 0xf0, 0, 0, 0, 0, 0, 0, 0xf4, 0xf5, 0xf6, 0xf7, 0xff};
+  uint64_t dg = 0x1234;
+  uint8_t* ex = vh_exact(all, sizeof all);
+  struct cbor_load_result lr;
+  cbor_item_t* it = NULL;
+  STAMP(F_LOAD, it = cbor_load(ex, sizeof all, &lr));
+  dg = vh_hash_mix(dg, (uint64_t)lr.error.code << 32 | lr.read);
+  if (it) {
+    size_t sz = 0, w = 0;
+    STAMP(F_SIZE, sz = cbor_serialized_size(it));
+    unsigned char* out = malloc(sz ? sz : 1);
+    STAMP(F_SERIALIZE, w = cbor_serialize(it, out, sz));
+    dg = vh_hash_mix(dg, vh_hash(out, w));
+    free(out);
+    unsigned char* ab = NULL; size_t abn = 0;
+    STAMP(F_SERIALIZE_ALLOC, cbor_serialize_alloc(it, &ab, &abn));
+    if (ab) { dg = vh_hash_mix(dg, vh_hash(ab, abn)); _cbor_free(ab); }
+    cbor_item_t* cp = NULL;
+    STAMP(F_COPY, cp = cbor_copy(it));
+    struct vh_buf dump = {0};
+    if (cp) { STAMP(F_WALK, walk_dump_item(cp, &dump, WD_REFCOUNTS)); dg = vh_hash_mix(dg, vh_hash(dump.p, dump.n)); STAMP(F_DECREF, cbor_decref(&cp)); }
+    vb_free(&dump);
+    STAMP(F_DESCRIBE, cbor_describe(it, df));
+    fflush(df);
+    dg = vh_hash_mix(dg, vh_hash(*dtext, *dlen));
+    rewind(df);
+    STAMP(F_DECREF, cbor_decref(&it));
+  }
+  int ctx;
+  for (size_t off = 0; off < sizeof all;) {
+    struct cbor_decoder_result res;
+    STAMP(F_STREAM, res = cbor_stream_decode(ex + off, sizeof all - off, &cbor_empty_callbacks, &ctx));
+    dg = vh_hash_mix(dg, (uint64_t)res.status << 40 | res.read);
+    if (res.status != CBOR_DECODER_FINISHED || res.read == 0) break;
+    off += res.read;
+  }
+  free(ex);
+  static const uint64_t vals[] = {0, 23, 24, 255, 256, 65535, 65536, 0xffffffffull, 0x100000000ull, 0x3c00, 0x7e00, 0x3f800000u, 0x7fc00001u, 0x3ff0000000000000ull, 0x7ff0000000000001ull};
+  for (int e = 0; e < E_N; e++)
+    for (size_t k = 0; k < sizeof vals / sizeof vals[0]; k++) {
+      uint8_t b[16]; size_t w = 0;
+      STAMP(F_ENCODE, w = vh_call_encoder(e, vals[k], b, sizeof b));
+      dg = vh_hash_mix(dg, vh_hash(b, w));
+    }
+  /* builders */
+  {
+    cbor_item_t* a = NULL, * s1 = NULL, * t1 = NULL, * m = NULL, * f = NULL, * tg = NULL;
+    STAMP(F_BUILD, a = cbor_new_indefinite_array());
+    STAMP(F_BUILD, s1 = cbor_build_string("h\xc3\xa9llo"));
+    STAMP(F_BUILD, t1 = cbor_build_bytestring((const unsigned char*)"\x01\x02", 2));
+    STAMP(F_BUILD, m = cbor_new_definite_map(1));
+    STAMP(F_BUILD, f = cbor_build_float2(1.5f));
+    if (a && s1 && t1 && m && f) {
+      (void)cbor_array_push(a, s1); (void)cbor_array_push(a, t1);
+      (void)cbor_map_add(m, (struct cbor_pair){.key = f, .value = a});
+      STAMP(F_BUILD, tg = cbor_build_tag(9, m));
+      if (tg) { struct vh_buf dump = {0}; walk_dump_item(tg, &dump, WD_REFCOUNTS); dg = vh_hash_mix(dg, vh_hash(dump.p, dump.n)); vb_free(&dump); cbor_decref(&tg); }
+    }
+    if (a) cbor_decref(&a);
+    if (s1) cbor_decref(&s1);
+    if (t1) cbor_decref(&t1);
+    if (m) cbor_decref(&m);
+    if (f) cbor_decref(&f);
+  }
+  return dg;
+}
+
 /* one thread's workload: everything is private to the thread */
 static void workload(struct tctx* c) {
   struct vh_rng r;
@@ -57,6 +130,7 @@ static void workload(struct tctx* c) {
   FILE* df = open_memstream(&dtext, &dlen); /* private stream */
   struct vh_buf enc = {0}, dump = {0};
   int ctx;
+  dg = vh_hash_mix(dg, cold_touch(c, df, &dtext, &dlen));
   for (int i = 0; i < c->nops; i++) {
     /* the concurrent run and the solo run of the same workload differ in ambient thread state (errno, rounding mode):
      * a digest difference exposes results that depend on it */
